@@ -53,7 +53,7 @@ def gen_case(job, seed):
         # exhaustive family of small shapes: the case number IS the index (n = 4), or a hashed sample of the family (n = 5)
         n = job.get("shape_n", 4)
         idx = seed if not job.get("shape_sample") else rng.randrange(len(defs.shape_family(n)))
-        return defs.gen_shape(idx, n)
+        return defs.gen_shape(idx, n, literal=bool(job.get("shape_literal")))
     if g == "cmds":
         return defs.gen_cmds(seed)
     if g == "rwait":
